@@ -61,6 +61,9 @@ pub struct IndSys {
 	/// In the flat shape starting one right after c0 and continuing it are free: hundreds of swing
 	/// highs / lows on one side of every slow average (peak counters, consecutive-pivot rules)
 	pub zigzag: bool,
+	/// one more state-dependent symbol: the next candle of a deterministic "volatile" stream (golden-ratio
+	/// Weyl sequence: every step a new value, no two alike); free to start right after c0 and to continue
+	pub volatile: bool,
 }
 
 #[derive(Clone)]
@@ -80,6 +83,8 @@ pub struct IState {
 	pub took_doc: u8,
 	/// largest price seen on this path (DESIGN 4.2, amendment 3: floor of the radius)
 	pub mag: f64,
+	/// steps taken (drives the volatile stream)
+	pub k: u32,
 }
 
 impl IndSys {
@@ -88,10 +93,14 @@ impl IndSys {
 			.iter()
 			.map(|c| (0..c.size().1.max(c.size().0) as usize).map(|_| SlotStats { buy: 0.into(), sell: 0.into(), silent: 0.into(), exempt: 0.into() }).collect())
 			.collect();
-		Self { name: name.to_string(), cfgs, c0s, alphabet, oracle, flat, stats, zigzag: false }
+		Self { name: name.to_string(), cfgs, c0s, alphabet, oracle, flat, stats, zigzag: false, volatile: false }
 	}
 	pub fn with_zigzag(mut self) -> Self {
 		self.zigzag = true;
+		self
+	}
+	pub fn with_volatile(mut self) -> Self {
+		self.volatile = true;
 		self
 	}
 	/// per (indicator, slot): how often the documented rule said buy / sell / silent / left it open
@@ -124,6 +133,17 @@ impl IndSys {
 	}
 }
 
+/// k-th candle of the volatile stream: close = 10 * (1 + frac(k * phi)), opens at the previous close
+pub fn volatile_candle(k: u32, prev_close: f64) -> Candle {
+	const PHI: f64 = 0.618_033_988_749_894_9;
+	let c = 10.0 * (1.0 + (k as f64 * PHI).fract());
+	let o = prev_close;
+	let hi = o.max(c) * (1.0 + 0.01 * (k % 5) as f64);
+	let lo = o.min(c) * (1.0 - 0.01 * (k % 3) as f64);
+	type V = yata::core::ValueType;
+	Candle { open: o as V, high: hi as V, low: lo as V, close: c as V, volume: (1 + k % 4) as V }
+}
+
 pub fn price_mag(c: &Candle) -> f64 {
 	[c.open, c.high, c.low, c.close].iter().map(|x| (*x as f64).abs()).fold(0.0, f64::max)
 }
@@ -150,7 +170,7 @@ impl System for IndSys {
 				let Ok(Ok(imp)) = catch(|| c.init(c0)) else { continue };
 				let Some(rf) = refmodel::ind::make(c.const_name(), &rcfg, &rc(c0)) else { continue };
 				let alt = refmodel::ind::make_alt(c.const_name(), &rcfg, &rc(c0));
-				v.push((IState { imp, rf, alt, cfg: i, prev: *c0, trend: 0, took_alt: 0, took_doc: 0, mag: price_mag(c0) }, format!("{} {} c0={}", c.const_name(), c.to_json().unwrap_or_default(), In::C(*c0).show())));
+				v.push((IState { imp, rf, alt, cfg: i, prev: *c0, trend: 0, took_alt: 0, took_doc: 0, mag: price_mag(c0), k: 0 }, format!("{} {} c0={}", c.const_name(), c.to_json().unwrap_or_default(), In::C(*c0).show())));
 			}
 		}
 		v
@@ -183,6 +203,9 @@ impl System for IndSys {
 				v.push((n + 4, if self.flat && !(depth == 1 || s.trend.abs() == 3) { 1 } else { 0 }));
 			}
 		}
+		if self.volatile {
+			v.push((n + 5, if self.flat && !(depth == 1 || s.trend == 4) { 1 } else { 0 }));
+		}
 		v
 	}
 	fn show_act(&self, a: &usize) -> String {
@@ -197,6 +220,8 @@ impl System for IndSys {
 			"zigzag-up(+2/-1)".into()
 		} else if *a == n + 4 {
 			"zigzag-down(-2/+1)".into()
+		} else if *a == n + 5 {
+			"volatile-next".into()
 		} else {
 			In::C(self.alphabet[*a]).show()
 		}
@@ -213,6 +238,8 @@ impl System for IndSys {
 			shift(&s.prev, if s.trend == 2 { -1.0 } else { 2.0 })
 		} else if *a == self.alphabet.len() + 4 {
 			shift(&s.prev, if s.trend == 3 { 1.0 } else { -2.0 })
+		} else if *a == self.alphabet.len() + 5 {
+			volatile_candle(s.k + 1, s.prev.close as f64)
 		} else {
 			self.alphabet[*a]
 		};
@@ -232,9 +259,12 @@ impl System for IndSys {
 			if s.trend == 2 { -2 } else { 2 }
 		} else if *a == self.alphabet.len() + 4 {
 			if s.trend == 3 { -3 } else { 3 }
+		} else if *a == self.alphabet.len() + 5 {
+			4
 		} else {
 			0
 		};
+		n.k = s.k + 1;
 		let r = match catch(|| n.imp.next(&c)) {
 			Ok(r) => r,
 			Err(_) => return Step::Prune, // panics are C10's business
